@@ -1439,6 +1439,11 @@ namespace awkward {
   NumpyArray::getitem_next(const SliceItemPtr& head,
                            const Slice& tail,
                            const Index64& advanced) const {
+    if (!iscontiguous()) {
+      // the carry-based slicing below addresses rows by multiples of
+      // strides_[0]: it needs a contiguous buffer (as getitem() ensures)
+      return contiguous().getitem_next(head, tail, advanced);
+    }
     Index64 carry(shape_[0]);
     struct Error err = kernel::carry_arange<int64_t>(
       kernel::lib::cpu,   // DERIVE
